@@ -12,7 +12,7 @@ args = sys.argv[1:]
 jobs = 4
 if args[:1] == ["-j"]:
     jobs = int(args[1]); args = args[2:]
-names = args or sorted(os.path.basename(d) for d in glob.glob(HERE + "/seeded/C*"))
+names = args or sorted(os.path.basename(d) for d in glob.glob(HERE + "/seeded/C??-*"))
 def sh(c, **k): return subprocess.run(c, shell=True, text=True, capture_output=True, **k)
 def one(name):
     d = HERE + "/seeded/" + name
@@ -43,7 +43,7 @@ with ThreadPoolExecutor(max_workers=jobs) as ex:
 # table over everything recorded so far
 rows = ["# Cross-talk: seeded change x check (quick tier)\n", "X = exit 1 (violation reported), . = exit 0 (silent), ? = inconclusive. C15/C16 legs are not part of this matrix.\n",
         "| seed | " + " | ".join(CHECKS) + " |", "|---|" + "---|" * len(CHECKS)]
-for d in sorted(glob.glob(HERE + "/seeded/C*")):
+for d in sorted(glob.glob(HERE + "/seeded/C??-*")):
     m = json.load(open(d + "/meta.json"))
     if "cross" in m and "error" not in m["cross"]:
         rows.append("| %s | " % os.path.basename(d) + " | ".join({0: ".", 1: "X", 2: "?"}.get(m["cross"].get(c), " ") for c in CHECKS) + " |")
